@@ -27,7 +27,8 @@ EXTENDS XotForest, XotLex
 UriTable ==
     << <<<<>>, "">>, <<<<117, 49>>, "u1">>, <<<<117, 50>>, "u2">>, <<<<117, 51>>, "u3">>,
        <<<<104, 116, 116, 112, 58, 47, 47, 120, 63, 97, 61, 49, 38, 98, 61, 50>>, "http://x?a=1&b=2">>,
-       <<<<117, 32, 118>>, "u v">> >>
+       <<<<117, 32, 118>>, "u v">>,
+       <<<<104, 116, 116, 112, 58, 47, 47, 119, 119, 119, 46, 119, 51, 46, 111, 114, 103, 47, 88, 77, 76, 47, 49, 57, 57, 56, 47, 110, 97, 109, 101, 115, 112, 97, 99, 101>>, XmlNs>> >>
 UriOf(cs) ==
     LET hits == {j \in 1..Len(UriTable) : UriTable[j][1] = cs} IN
     IF hits = {} THEN "?unknown-uri" ELSE UriTable[CHOOSE j \in hits : TRUE][2]
@@ -143,7 +144,10 @@ Step(st, tk) ==
         st1 == [st EXCEPT !.off = st.off + TokLen(tk), !.ntok = st.ntok + 1]
         top == st.stack = <<>>
     IN IF ~st.wf THEN st
-       ELSE CASE tk.k = "decl" ->
+       ELSE CASE tk.k = "bom" ->      \* U+FEFF in front of everything: skipped, but it counts in every offset
+                   IF st.ntok # 0 \/ st.off # 0 \/ st.mode # "doc" THEN Fail(st1, "byte order mark not at the start")
+                   ELSE [st EXCEPT !.off = st.off + TokLen(tk)]
+              [] tk.k = "decl" ->
                    IF st.ntok # 0 THEN Fail(st1, "declaration not at the start")
                    ELSE IF tk.ver # "1.0" THEN Fail(st1, "version is not 1.0") ELSE st1
               \* white space between top-level items; inside an element (possible after a damaging edit) it is text
